@@ -347,6 +347,46 @@ Example C18_wide_placement_inhabited :
     g_tasks gp = expected cs inv.
 Proof. exact C18_wide.wide_placement_example. Qed.
 
+(** The shadowing clause -- "unless that task declares a flag of the same name
+    (which then receives it)" -- proved over the wide fragment, through both
+    passes of Program: [guard_wide2] does NOT ask the tasks' flags to differ
+    from the core flags.  Whatever flags the invoked tasks share with the
+    initial context (even with options of the prefix [os] itself), a token
+    spelled inside a task's argument list as one of that task's flags is
+    received by the task -- every task gets exactly its [expected] arguments --
+    and the core values are a function of the prefix [os] alone (for [os] = []:
+    the defaults, i.e. those of the command line without the option).  Outside:
+    the forms outside [C01_spell_roundtrip_partial_widest2], and the explicit
+    don't-care region [glued_cluster_reading] of Spec/C18Spec.v. *)
+Theorem C18_shadowing_receives :
+  forall cs ic os inv,
+    C01_widest2.guard_wide2 cs ic inv = true ->
+    copts_ok cs (rc_args (init_ctx ic)) os = true ->
+    exists g, prog_obs ic cs (flat_map spell_copt os ++ spell cs inv) = Ok g /\
+              g_core g = core_values (apply_copts (rc_args (init_ctx ic)) os) /\
+              g_tasks g = expected cs inv /\
+              g_unparsed g = spell cs inv /\ g_remainder g = "".
+Proof. exact C18_wide.program_wide_front. Qed.
+
+(** Non-vacuity: task "test" declares -e (exclude, a list) and -f (fast); the
+    real core context declares -e (echo) and -f (config).  In
+    "-e test -e a -f" the first -e is the core option, the other two tokens
+    are received by the task. *)
+Example C18_shadowing_inhabited :
+  let cs := [C01_wide_final.ex_build; C01_wide_final.ex_test] in
+  let inv := [mkCall 1 "test" [One (mkOcc 0 1 FNext (VS "a")); One (mkOcc 1 1 FBare (VB true))]] in
+  C01_widest2.guard_wide2 cs core_ctx inv = true /\
+  spell cs inv = ["test"; "-e"; "a"; "-f"] /\
+  (exists i r, find_flag (rc_args (init_ctx core_ctx)) "-e" = Some i /\
+               nth_error (rc_args (init_ctx core_ctx)) i = Some r /\ arg_name (r_spec r) = "echo") /\
+  (exists i r, find_flag (rc_args (init_ctx core_ctx)) "-f" = Some i /\
+               nth_error (rc_args (init_ctx core_ctx)) i = Some r /\ arg_name (r_spec r) = "config") /\
+  exists g, prog_obs core_ctx cs ["-e"; "test"; "-e"; "a"; "-f"] = Ok g /\
+            kw_get "echo" (g_core g) = Some (ABool true) /\
+            kw_get "config" (g_core g) = Some ANone /\
+            g_tasks g = [(Some "test", [("exclude", AList ["a"]); ("fast", ABool true)])].
+Proof. exact C18_wide.shadowing_example. Qed.
+
 (** C18 x C15 (Model/ProgramModel.v, Program.update_config): the core values
     determine the *overrides* configuration level and the runtime configuration
     file; hence a core prefix placed anywhere admissible yields the SAME
